@@ -12,12 +12,22 @@ RULE = ('translator: translate/errflow (syn) re-reads every anchored file of $EG
         'x adapter stacks (none, clipped, cropped, translated, color_converted, nested up to depth 5, run-time built) '
         'x {native target, draw_iter-only target} x {Rgb565, Rgb888}; for EVERY k < n (n = calls of the fault-free run) the k-th call '
         'fails with error value k: draw must return Err(k), the log must end with the failing call and equal the fault-free prefix '
-        '(calls compared with all arguments, pixel lists and colour streams included). Fixed grid + random drawables/stacks from VERIF_SEED.')
+        '(calls compared with all arguments, pixel lists and colour streams included). Fixed grid (every fixed drawable x 4 bases x 12 stacks, '
+        'also in the quick tier; with an 888 base the drawable draws Rgb888 unless the stack contains cc) + random drawables/stacks from '
+        'VERIF_SEED (1500 quick / 40000 thorough). Site coverage of the sweep (translate/errflow/site_coverage.txt, produced by '
+        'mutation_tests.py --per-site: one swallow-the-error mutation per translated call site, sweep judged alone): 77 of the 79 call sites '
+        'give a concrete failing (drawable, stack, k); the remaining 2 (MonoFontDrawTarget::fill_solid with BinaryColor::On, '
+        'mono_font/draw_target.rs:45 and :122) cannot be reached through the public API (private module, draw_string_binary only fills Off).')
 EXHAUSTIVE = {'quick': False, 'thorough': False}
 ASSUMPTIONS = ['the underlying target and any callee outside the anchored files (foreign ImageDrawable / TextRenderer / DrawTarget '
                'implementations) themselves stop at their first failing call and return its error (assume/guarantee: the theorem is '
                'about the library code between the caller and the target)',
-               'panics are not errors: a panicking path (unreachable!(), overflow) is outside C04']
+               'panics are not errors: a panicking path (unreachable!(), overflow) is outside C04',
+               'events of the Coq semantics carry (callee name, call site) but NO call arguments: "the calls before the failure are the same" '
+               'is proved up to these events; that the faulted run passes the same ARGUMENTS as the fault-free run is determinism of the Rust '
+               'code (control and data never depend on what the target answers) and is checked by p_errflow only (whole Call values compared)',
+               'loop counts, branch choices and dynamic dispatch are an oracle shared by the fault-free and the faulted run (the Point returned '
+               'by draw_string/draw_whitespace is branched on, but is computed from text and font only)']
 TRUSTED = ['modelled, not verified: the translator translate/errflow (Rust, syn 2): its recognition of a propagating call by method/function '
            'name (set recomputed from the signatures on every run) and of the disposition of the call\'s Result; dynamic dispatch is '
            'over-approximated in the Coq semantics (a call may resolve to ANY anchored function of that name, to the underlying target, '
@@ -25,8 +35,15 @@ TRUSTED = ['modelled, not verified: the translator translate/errflow (Rust, syn 
            'completeness of the call-site recognition is self-checked per function by an independent token census (`name(` tokens with a '
            'propagating name = translated call sites, else Other); a callee NOT defined in the scanned tree (closure parameter, foreign trait '
            'method) is recognised only in result / `?` position, a discarded Result of such a callee is visible to the dynamic sweep only',
+           '"returned unchanged" additionally needs caller and callee to have the same error type: C04_repo_adapter_error_is_parent_error '
+           'decides (from the regenerated table of every `impl DrawTarget`) that each declares `type Error = T::Error` for its own type '
+           'parameter T: DrawTarget or is Infallible; a `?` in a function that does not return Result<_, X::Error> is Other; error types of '
+           'non-DrawTarget callees are fixed by their signatures Result<_, D::Error> (that is how functions are selected)',
+           'items are dropped as test-only only if their cfg predicate is false with test=off (cfg(test), all(test, ..)); every other cfg '
+           '(not(test), features) is kept, so mutually exclusive cfg variants are all in the table',
            'code inside macro_rules! bodies is not parsed; the translator fails closed if such a body contains `.name(` with a propagating name']
-PARTIAL = []
+PARTIAL = ['C04_propagating_stops / C04_repo_errors_stop_drawing: clause "calls before the failure equal the fault-free run" holds for '
+           '(callee, call-site) events; equality of call arguments is covered by the sweep p_errflow only (see ASSUMPTIONS)']
 
 
 def trivial(line, res):
@@ -189,8 +206,6 @@ def search(tier, rng):
     for d in fx:
         for b in BASES:
             for s in STACKS:
-                if tier == 'quick' and b.endswith('888') and s not in ('-', 'cc', 'cc,tr:1:1,cl:0:0:40:40'):
-                    continue
                 yield J('p_errflow', b, s, d)
     n = 1500 if tier == 'quick' else 40000
     for _ in range(n):
@@ -203,18 +218,24 @@ LEVEL_TEXT = ('Proof: the generic Coq theorem C04_propagating_stops (coq/Proofs/
               'function of that name) and every k < n (n = calls of the fault-free run), the run whose k-th target call fails with e returns Err e '
               'unchanged and its log is exactly the first k fault-free calls plus the failing call, nothing after it; a fault at k >= n changes '
               'nothing. Per run, translate/errflow (Rust, syn) regenerates the skeleton of EVERY function in src/ and core/src/ returning '
-              'Result<_, X::Error> (59 functions, 79 call sites, 16 names) and C04_repo_offending_sites_none / C04_repo_errflow_ok / '
+              'Result<_, X::Error> (59 functions, 79 call sites, 16 names; items dropped only if test-only) and C04_repo_offending_sites_none / C04_repo_errflow_ok / '
               'C04_repo_no_other decide by vm_compute that all sites are Propagated (?, tail expression, return) - so a `let _ =`, `;`, `.ok()`, '
               '`.unwrap_or..`, a result bound to a variable, a closure/macro/helper that swallows, map_err, a hand-made Err breaks a theorem; '
-              'C04_repo_errors_stop_drawing is the instance for the repository table. The dynamic sweep p_errflow (implementation only) fails '
+              'C04_repo_errors_stop_drawing is the instance for the repository table. C04_repo_covers_builtin / C04_repo_covers_adapters pin by '
+              '(function, file) that all 9 draw_styled, Styled::draw, Text::draw, the MonoTextStyle functions, Image/ImageRaw/SubImage, Pixel, '
+              'the pixel iterator, the scanline helpers, all 4 adapters, the 3 MonoFontDrawTarget impls and the 3 trait defaults are in the table '
+              'with call sites; C04_repo_site_census: per file, table call sites = an independent whole-file token census (no site lost); '
+              'C04_repo_adapter_error_is_parent_error: every impl DrawTarget has type Error = T::Error (its parent) or Infallible. The dynamic sweep p_errflow (implementation only) fails '
               'every k < n on the real code for every drawable family x adapter stack x {native, draw_iter-only} target and supplies the '
               'concrete (drawable, stack, k) replay.')
 LEVEL_NOTE = ('The theorem is about the skeleton semantics (coq/Model/Errlang.v), not about Rust: the translator (call recognition by name, '
               'classification of what happens to each Result) is modelled, not verified; it fails closed (unknown shapes -> Other -> theorem breaks; '
               'unparseable file / macro_rules body calling a propagating method -> translator error -> VIOLATION). Control decisions are an oracle '
               'shared by the fault-free and the faulted run (they do not depend on the Ok value of target calls, which is ()); foreign callees are '
-              'atomic leaves assumed compliant; panics are outside C04. 14 seeded mutations (dropped ?, .ok() on one border only, deferred error in '
-              'Text::draw, retry, call after the failure, stroke-only discard, swallowing adapter / trait default / helper / closure / nested fn, '
-              'map_err, continue-after-error) are all reported as VIOLATION, 13 of them with a concrete failing (drawable, stack, k) from the sweep; '
-              'a benign refactor (new propagating helper) stays OK.')
+              'atomic leaves assumed compliant; panics are outside C04; events carry no call arguments (PARTIAL). 20 seeded mutations (dropped ?, .ok() on one border only, deferred error in '
+              'Text::draw, retry, call after the failure, stroke-only discard, swallowing adapter / trait default / helper / closure / nested fn / '
+              'macro_rules body / cfg(not(test)) helper / Option helper with ?, fn pointer, map_err, continue-after-error, coordinator seeds C04-A '
+              'and C04-B) are all reported as VIOLATION with the static side broken, 19 of them also with a concrete failing (drawable, stack, k) '
+              'from the sweep (map_err(|e| e) preserves behaviour); a benign refactor (new propagating helper) stays OK. Per call site: 77 of 79 '
+              'sites are reached by the sweep alone, 2 are unreachable through the public API (translate/errflow/site_coverage.txt).')
 CLAIMED = True
